@@ -31,7 +31,7 @@ def mcc(module, base, **kw):
 MC_WRAP = mcc('MC_Wrap', 'MC_Wrap', invariants='Inv_Width Inv_Overflow Inv_Conserve Inv_Frags Inv_Greedy Inv_WsIdem Inv_Pad')
 MC_WRAP_PRE = mcc('MC_Wrap', 'MC_WrapPre', invariants='Inv_Width Inv_Overflow Inv_Conserve Inv_Frags Inv_Pad')
 MC_WRAP_MARKS = mcc('MC_Wrap', 'MC_WrapMarks', invariants='Inv_Width Inv_Conserve Inv_Frags')
-MC_BLOCK = mcc('MC_Block', 'MC_Block', invariants='Inv_C02_Step Inv_C03_Step Inv_C09_Balanced Inv_C01 Inv_C11 Inv_P_C02 Inv_P_C03')
+MC_BLOCK = mcc('MC_Block', 'MC_Block', invariants='Inv_C02_Step Inv_C03_Step Inv_C09_Balanced Inv_C01 Inv_C11 Inv_P_C02 Inv_P_C03 Inv_P_C08 Inv_P_C09 Inv_P_C14')
 
 MC_WORDS = mcc('MC_Words', 'MC_Words', invariants='Inv_Greedy Inv_Width')
 
@@ -87,6 +87,27 @@ PLANS = {
         nontrivial=lambda rec: bool(rec.get('runs')) and rec['runs'][0]['res']['k'] == 'ok' and any(x[0] == -1 for ln in rec['runs'][0]['res']['lines'] for x in ln),
         rule='MC: MC_Wrap with fragment markers and tag switches at every position relative to wrap points (Inv_Frags conservation in every state); random: grammar documents with unique ids / anchor names on random elements (p, div, span, em, a[name], li, ul, ol, blockquote, h*, pre, td, tr, table, dl/dt/dd), widths 1..100 with half of them <= 12; runs: lines route, string route with and without the ids; non-trivial = Ok and at least one marker; distinct by sha256(runs)',
         assumptions=['the position clause is evaluated on table-free documents (letters before the marker = letters before the element in V(d)); ids on elements without visible text may or may not yield a marker'],
+    ),
+    'C07': dict(
+        fams=[('c07', dict(quick=3000, thorough=60000), {})],
+        mc=[MC_BLOCK],
+        nontrivial=lambda rec: len(rec.get('runs', [])) >= 2 and all(r['res']['k'] == 'ok' for r in rec['runs']) and len(rec['runs'][0]['res']['lines']) >= 2,
+        rule='each case = one block B in {ul, ol(start in {absent,-100,-12,-9,-1,0,1,5,9,95,98,100,999}, 1..15 items), blockquote, h1..h6, dd} with random flow content (nested blocks included) at width w, plus one auxiliary run per item: the item content as a stand-alone document at w - prefix width; the predicate composes the real sub-renderings with the prefixes; non-trivial = all runs Ok and B has >= 2 lines; distinct by sha256(runs)',
+        assumptions=['content without links (footnote numbering is global by design, C08)', 'prefix strings are the ones the decorator returns (observed through its trait methods)'],
+    ),
+    'C08': dict(
+        fams=[('c08', dict(quick=3000, thorough=60000), {})],
+        mc=[MC_BLOCK],
+        nontrivial=lambda rec: bool(rec.get('runs')) and rec['runs'][0]['res']['k'] == 'ok' and any(len(l) > 3 and l[0][0] == 91 and l[-1][0] != 93 and any(c[0] == 58 for c in l[:6]) for l in rec['runs'][0]['res']['lines']),
+        rule='grammar documents biased to many links (unique letter texts, repeated hrefs) in paragraphs, lists, quotes, headings, table cells, nested tables; widths 10..120; decorators plain/trivial/rich/plain_nd; each case rendered with link_footnotes(true) and (false); the expected footnote block is laid out by the specification (Render!FmtLink); non-trivial = Ok with a footnote block; distinct by sha256(runs)',
+        assumptions=['inside side-by-side table cells a reference may be cut by the cell boundary: there only membership in 1..n and uniqueness of complete references are checked, the footnote block is always checked exactly'],
+    ),
+    'C09': dict(
+        fams=[('c09', dict(quick=3000, thorough=60000), {})],
+        mc=[MC_BLOCK],
+        nontrivial=lambda rec: bool(rec.get('runs')) and rec['runs'][0]['res']['k'] == 'ok' and any(len(x) > 2 and len(x[2]) >= 2 for ln in rec['runs'][0]['res']['lines'] for x in ln),
+        rule='grammar documents with random nestings of em/i/strong/s/del/code/a/img/pre/span/sup inside paragraphs, lists, quotes, headings, table cells; widths 1..100 (half <= 25); rich lines route compared letter by letter with the annotation vector of the DOM ancestors, and with the rich string route; non-trivial = Ok with some cell carrying >= 2 annotations; distinct by sha256(runs)',
+        assumptions=['for side-by-side tables the (letter, vector) pairs are compared as multisets', 'CSS colour annotations are covered by C19/C20'],
     ),
     'C03': dict(
         fams=[('c03', dict(quick=3000, thorough=60000), {})],
